@@ -128,6 +128,20 @@ def run(ctx):
     ctx.extra["lost_wakeup_windows_constructed"] = gate_seen
     ctx.classify(recs)
     ctx.sample(res[0])
+    # a pool that loses a slot per event of some size wedges the readers once `capacity` of them have passed, with nothing in
+    # flight: get/back cycles for every size class (1 .. 2^31, +-1) on both pools, more cycles than the capacity
+    outp = os.path.join(ctx.scratch, "c04_poolsizes.json")
+    rc, txt = ctx.run_bin(binary, "^TestVerifC05Pools$", env={"VERIF_OUT": outp}, timeout=3600)
+    if rc != 0 or not os.path.exists(outp):
+        crash = core.classify_crash(txt)
+        if crash is None:
+            raise vlib.Infra("pool size-class harness failed rc=%s:\n%s" % (rc, txt[-3000:]))
+        ctx.classify([crash])
+        return
+    prs = [r for r in json.load(open(outp)) if r["family"] == "size_class"]
+    ctx.evaluations += len(prs)
+    ctx.extra["pool_size_classes_cycled"] = len(prs)
+    ctx.classify([{"kind": "pool_get_blocked_with_nothing_in_flight", "pool": r["pool"], "size": r["size"], "capacity": r["capacity"]} for r in prs if r["blocked"]])
     # lock order between stream.mu and the streamer's blocked list (LockOrder.tla: the faithful model never deadlocks, the mutant --
     # tryUnblock called under blockedMu -- does)
     ctx.tlc_expect_ok("LockOrder", "LockOrder_ok.cfg", timeout=900, deadlock=True, name="LockOrder/faithful")
